@@ -469,6 +469,147 @@ def run_out_views(c, part, out):
                 out.append((f"C18:failed-call-mutated-target:{name}", {"unit": u, "dtype": c["dtype"], "diff": d}))
 
 
+OTHER = {"km": "m", "m": "km", "cm": "inch", "g": "kg", "mile/hr": "m/s", "N*m": "erg", "kg*m**2/s**2": "eV", "degC": "degF", "K": "R", "keV": "J",
+         "km/m": "percent", "J/erg": "percent", "m*s/s": "cm", "Hz*s*km": "m"}
+
+
+def run_mixed(c, part, out, which):
+    """both operands tracked, the second written in another commensurable unit (so that the library has to rescale one of them
+    somewhere): (N) copying binary forms leave both intact and hand back independent memory; (S) in-place forms change only their
+    target and give the numbers of the copying form; item assignment / fill / put / copyto store exactly what value.to(target unit)
+    gives and leave the assigned value intact"""
+    import unyt
+    from unyt import unyt_array
+
+    u, dt = c["unit"], c["dtype"]
+    ou = OTHER[u]
+    dm = getattr(__import__("builtins"), "divmod")
+    copying = [
+        ("a+b", lambda a, b: a + b), ("a-b", lambda a, b: a - b), ("b-a", lambda a, b: b - a), ("a*b", lambda a, b: a * b), ("a/b", lambda a, b: a / b), ("b/a", lambda a, b: b / a),
+        ("a//b", lambda a, b: a // b), ("b//a", lambda a, b: b // a), ("a%b", lambda a, b: a % b), ("b%a", lambda a, b: b % a), ("divmod(a,b)", lambda a, b: dm(a, b)),
+        ("np.floor_divide(a,b)", lambda a, b: np.floor_divide(a, b)), ("np.remainder(a,b)", lambda a, b: np.remainder(a, b)), ("np.fmod(a,b)", lambda a, b: np.fmod(a, b)),
+        ("np.true_divide(a,b)", lambda a, b: np.true_divide(a, b)), ("np.maximum(a,b)", lambda a, b: np.maximum(a, b)), ("np.fmin(b,a)", lambda a, b: np.fmin(b, a)),
+        ("np.hypot(a,b)", lambda a, b: np.hypot(a, b)), ("np.arctan2(a,b)", lambda a, b: np.arctan2(a, b)), ("np.copysign(a,b)", lambda a, b: np.copysign(a, b)),
+        ("a<b", lambda a, b: a < b), ("b>=a", lambda a, b: b >= a), ("a==b", lambda a, b: a == b), ("np.not_equal(a,b)", lambda a, b: np.not_equal(a, b)),
+        ("np.isclose(a,b)", lambda a, b: np.isclose(a, b)), ("np.allclose(b,a)", lambda a, b: np.allclose(b, a)), ("np.array_equal(a,b)", lambda a, b: np.array_equal(a, b)),
+        ("allclose_units(a,b)", lambda a, b: unyt.array.allclose_units(a, b)), ("np.concatenate([a,b])", lambda a, b: np.concatenate([np.atleast_1d(a), np.atleast_1d(b)])),
+        ("np.stack([b,a])", lambda a, b: np.stack([b, a])), ("np.where(m,a,b)", lambda a, b: np.where(np.asarray(a) > 0, a, b)), ("np.clip(a,b.min(),b.max())", lambda a, b: np.clip(a, b.min(), b.max())),
+        ("np.append(a,b)", lambda a, b: np.append(a, b)), ("np.union1d(a,b)", lambda a, b: np.union1d(a, b)), ("np.isin(a,b)", lambda a, b: np.isin(a, b)),
+        ("np.searchsorted(sort(a),b)", lambda a, b: np.searchsorted(np.sort(np.atleast_1d(a)), b)), ("np.interp(a,sort(b),b)", lambda a, b: np.interp(np.atleast_1d(a), np.sort(np.atleast_1d(b)), np.atleast_1d(b))),
+        ("np.dot(a,b)", lambda a, b: np.dot(np.atleast_1d(a), np.atleast_1d(b))), ("a@b", lambda a, b: np.atleast_1d(a) @ np.atleast_1d(b)), ("np.outer(a,b)", lambda a, b: np.outer(a, b)),
+        ("np.add.outer(a,b)", lambda a, b: np.add.outer(a, b)), ("np.subtract(a,b)", lambda a, b: np.subtract(a, b)), ("np.linspace(a.min(),b.max(),3)", lambda a, b: np.linspace(a.min(), b.max(), 3)),
+        ("np.trapezoid(a,b)", lambda a, b: np.trapezoid(np.atleast_1d(a), np.atleast_1d(b))), ("unyt_array([a0,b0])", lambda a, b: unyt_array([np.atleast_1d(a)[0], np.atleast_1d(b)[0]])),
+        ("np.histogram(a,bins=sort(b))", lambda a, b: np.histogram(np.atleast_1d(a), bins=np.sort(np.atleast_1d(b)))), ("np.diff(a,prepend=b0)", lambda a, b: np.diff(np.atleast_1d(a), prepend=np.atleast_1d(b)[0])),
+        ("np.pad(a,1,constant_values=b0)", lambda a, b: np.pad(np.atleast_1d(a), 1, constant_values=np.atleast_1d(b)[0])), ("np.ediff1d(a,to_end=b0)", lambda a, b: np.ediff1d(np.atleast_1d(a), to_end=np.atleast_1d(b)[0])),
+    ]
+    for k in which:
+        name, fn = copying[k % len(copying)]
+        a, b = Operand(c["vals"], u, dt), Operand(c["vals2"], ou, dt)
+        part.ev()
+        res = None
+        try:
+            res = fn(a.q, b.q)
+            status = "returned"
+        except Exception:
+            status = "raised"
+        part.nt(("mixed", name, u, status))
+        bad = False
+        for pos, op in (("first", a), ("second (other unit)", b)):
+            d = op.changed()
+            if d:
+                out.append((f"C18:copying-call-mutated-input:mixed-units:{name}", {"unit": u, "other": ou, "dtype": dt, "operand": pos, "status": status, "diff": d}))
+                bad = True
+                break
+        for r in (res if isinstance(res, tuple) else (res,)):
+            if not bad and isinstance(r, np.ndarray) and r.size and r.flags.writeable:
+                try:
+                    np.asarray(r)[...] = 0
+                except Exception:
+                    continue
+                for pos, op in (("first", a), ("second (other unit)", b)):
+                    d = op.changed()
+                    if d:
+                        out.append((f"C18:result-shares-memory-with-input:mixed-units:{name}", {"unit": u, "other": ou, "dtype": dt, "operand": pos, "diff": d}))
+                        bad = True
+                        break
+    if not dt.startswith("float"):
+        return
+    U = unyt.Unit(u)
+
+    def cmp(name, got, want, y, t1):
+        a_ = np.asarray(got).astype(complex)
+        try:
+            b_ = np.asarray(want.to(got.units) if hasattr(want, "units") and want.units != got.units else want).astype(complex)
+        except Exception:
+            b_ = None
+        eps = 8 * float(np.finfo(np.dtype(dt)).eps)
+        with np.errstate(all="ignore"):
+            close = b_ is not None and a_.shape == b_.shape and bool(np.all((np.abs(a_ - b_) <= eps * (np.maximum(np.abs(b_), np.abs(a_)) + (300.0 if U.base_offset else 0.0))) | (a_ == b_) | (np.isnan(a_) & np.isnan(b_))))
+        if not close:
+            out.append((f"C18:inplace-differs-from-copy:mixed-units:{name}", {"unit": u, "other": ou, "dtype": dt, "inplace": repr(got)[:120], "copy": repr(want)[:120]}))
+        if t1.base is not None and not (t1.base[0] == SENT and t1.base[-1] == SENT):
+            out.append((f"C18:inplace-wrote-outside-target:mixed-units:{name}", {"unit": u, "dtype": dt}))
+        d = y.changed()
+        if d:
+            out.append((f"C18:inplace-changed-other-operand:mixed-units:{name}", {"unit": u, "other": ou, "dtype": dt, "diff": d}))
+
+    inplace = [
+        ("+=", lambda x, y: x.__iadd__(y), lambda x, y: x + y), ("-=", lambda x, y: x.__isub__(y), lambda x, y: x - y), ("*=", lambda x, y: x.__imul__(y), lambda x, y: x * y),
+        ("/=", lambda x, y: x.__itruediv__(y), lambda x, y: x / y), ("//=", lambda x, y: x.__ifloordiv__(y), lambda x, y: x // y), ("%=", lambda x, y: x.__imod__(y), lambda x, y: x % y),
+        ("np.add(x,y,out=x)", lambda x, y: np.add(x, y, out=x), lambda x, y: np.add(x, y)), ("np.subtract(x,y,out=x)", lambda x, y: np.subtract(x, y, out=x), lambda x, y: np.subtract(x, y)),
+        ("np.floor_divide(x,y,out=x)", lambda x, y: np.floor_divide(x, y, out=x), lambda x, y: np.floor_divide(x, y)), ("np.remainder(x,y,out=x)", lambda x, y: np.remainder(x, y, out=x), lambda x, y: np.remainder(x, y)),
+        ("np.maximum(x,y,out=x)", lambda x, y: np.maximum(x, y, out=x), lambda x, y: np.maximum(x, y)), ("np.hypot(x,y,out=x)", lambda x, y: np.hypot(x, y, out=x), lambda x, y: np.hypot(x, y)),
+        ("np.divide(x,y,out=x)", lambda x, y: np.divide(x, y, out=x), lambda x, y: np.divide(x, y)), ("np.fmod(x,y,out=x)", lambda x, y: np.fmod(x, y, out=x), lambda x, y: np.fmod(x, y)),
+    ]
+    for name, ip, cp in inplace:
+        t1, t2, y = Operand(c["vals"], u, dt, contiguous=True), Operand(c["vals"], u, dt, contiguous=True), Operand(c["vals2"], ou, dt)
+        part.ev()
+        try:
+            want = cp(t2.q, y.q)
+        except Exception:
+            continue
+        try:
+            ret = ip(t1.q, y.q)
+        except Exception as e:
+            d = t1.changed(numbers_and_units_only=True)
+            if d:
+                out.append((f"C18:failed-call-mutated-target:mixed-units:{name}", {"unit": u, "other": ou, "dtype": dt, "error": type(e).__name__, "diff": d}))
+            continue
+        part.nt(("mixed-inplace", name, u))
+        cmp(name, ret if ret is not None else t1.q, want, y, t1)
+        if t2.changed():
+            out.append((f"C18:copying-call-mutated-input:mixed-units:operator {name}", {"unit": u, "diff": t2.changed()}))
+    # stores: the numbers that arrive in the target are those of value.to(target unit)
+    n = len(c["vals"]) if np.ndim(c["vals"]) else 0
+    if not n:
+        return
+    stores = [
+        ("x[0]=y0", lambda x, y: x.__setitem__(0, y[0]), lambda x, y: [0]), ("x[:]=y", lambda x, y: x.__setitem__(slice(None), y), lambda x, y: list(range(n))),
+        ("x[mask]=y", lambda x, y: x.__setitem__(np.ones(n, bool), y), lambda x, y: list(range(n))), ("x[...]=y0", lambda x, y: x.__setitem__(Ellipsis, y[0]), lambda x, y: [0] * n),
+        ("x[[0,-1]]=y0", lambda x, y: x.__setitem__([0, -1], y[0]), lambda x, y: None), ("x.fill(y0)", lambda x, y: x.fill(y[0]), lambda x, y: [0] * n),
+        ("np.put(x,[0],y0)", lambda x, y: np.put(x, [0], y[0]), lambda x, y: None), ("np.copyto(x,y)", lambda x, y: np.copyto(x, y), lambda x, y: list(range(n))),
+        ("np.putmask(x,m,y)", lambda x, y: np.putmask(x, np.ones(n, bool), y), lambda x, y: list(range(n))), ("np.place(x,m,y)", lambda x, y: np.place(x, np.ones(n, bool), y), lambda x, y: list(range(n))),
+        ("x[::-1]=y", lambda x, y: x.__setitem__(slice(None, None, -1), y), lambda x, y: list(range(n))[::-1]), ("x[0:1]=list of quantities", lambda x, y: x.__setitem__(slice(0, 1), [y[0]]), lambda x, y: None),
+    ]
+    for name, st_, _ in stores:
+        t1, t2, y = Operand(c["vals"], u, dt, contiguous=True), Operand(c["vals"], u, dt, contiguous=True), Operand(c["vals2"], ou, dt)
+        part.ev()
+        try:
+            conv = np.asarray(y.q.to(t2.q.units))
+            st_(t2.q.v if False else t2.q, unyt_array(conv, t2.q.units))  # the same store with the value already converted (plain NumPy semantics)
+        except Exception:
+            continue
+        try:
+            st_(t1.q, y.q)
+        except Exception as e:
+            d = t1.changed(numbers_and_units_only=True)
+            if d:
+                out.append((f"C18:failed-call-mutated-target:mixed-units:{name}", {"unit": u, "other": ou, "dtype": dt, "error": type(e).__name__, "diff": d}))
+            continue
+        part.nt(("mixed-store", name, u))
+        cmp(name, t1.q, t2.q, y, t1)
+
+
 def judge(c, part):
     out = []
     seq = c["seq"]
@@ -476,6 +617,7 @@ def judge(c, part):
     run_faults(c, part, out, seq[:4])
     run_copying(c, part, out, seq[4:])
     run_twins(c, part, out)
+    run_mixed(c, part, out, seq[1:6])
     run_faults(c, part, out, seq[2:5])
     run_copying(c, part, out, seq[:3])
     if len(part.samples) < 2:
